@@ -143,6 +143,7 @@ structure FixPost (al : Bool) (taken : List Str) (r r' : Rec) (t' : List Str) : 
   shortName : al = false → r'.name.length ≤ 16
   orig : r'.orig = fixOrig r r'.id
   index : r'.index = r.index
+  acc : ∀ a, r'.acc = some a → a.length ≤ 16
 
 theorem fixName_clean (al : Bool) (r : Rec) : Clean (fixName al r) := strip_clean _
 
@@ -154,6 +155,18 @@ theorem fixName_short (r : Rec) : (fixName false r).length ≤ 16 := by
   · rename_i h
     simp only [Bool.not_false, Bool.and_true, decide_eq_true_eq] at h
     omega
+
+theorem fixAcc_short (r : Rec) (a : Str) (h : fixAcc r = some a) : a.length ≤ 16 := by
+  unfold fixAcc at h
+  split at h
+  · split at h
+    · simp only [Option.some.injEq] at h
+      exact h ▸ shortenIds_length _ _
+    · rename_i hl
+      simp only [Option.some.injEq] at h
+      subst h
+      omega
+  · simp at h
 
 theorem fixRecordNameId_spec {al : Bool} {taken : List Str} {r r' : Rec} {t' : List Str}
     (h : fixRecordNameId al taken r = .ok (r', t')) : FixPost al taken r r' t' := by
@@ -177,7 +190,8 @@ theorem fixRecordNameId_spec {al : Bool} {taken : List Str} {r r' : Rec} {t' : L
         shortId := fun hal => s2.2.2 hal (s1.2 hal)
         shortName := fun hal => hal ▸ fixName_short r
         orig := rfl
-        index := rfl }
+        index := rfl
+        acc := fun a ha => fixAcc_short r a ha }
 
 theorem fixRecordNameId_err {al : Bool} {taken : List Str} {r : Rec} {e : Err}
     (h : fixRecordNameId al taken r = .error e) : e = .runtime := by
